@@ -4,7 +4,7 @@ import Aiortc.Lemmas.SctpNoCrashData
 namespace Aiortc.Sctp.V2
 open Aiortc.Gen Aiortc.Sctp.Wire
 set_option linter.unusedSimpArgs false
-variable {U : List Nat}
+variable {U : List Nat} {B : Nat}
 
 theorem packetFor_ok {e : Ep} {c : Chunk} (h : WF U e) (hc : c.inRange = true) : ∃ d, packetFor e c = .ok d := by
   obtain ⟨p, hp, hlt⟩ := h.net.rp
@@ -59,40 +59,6 @@ theorem wp_playTx {A} {evs : List TxEv} {Q : Unit → St → Prop} {e : Ep} {l :
     rw [← he] at this
     simpa using this
 
-/-- `_setReadyState`: only the channel object changes. -/
-theorem wp_setReady {A} {i st : Nat} {Q : Unit → St → Prop} {e : Ep} {l : List Out} (h : WF U e)
-    (hi : i < e.chans.length)
-    (hq : ∀ cs l', WF U { e with chans := cs } → cs.length = e.chans.length → Q () ({ e with chans := cs }, l')) :
-    wp A (setReady i st) Q (e, l) := by
-  obtain ⟨c, hc⟩ := getElem?_of_lt hi
-  have hself := hq e.chans
-  unfold setReady
-  simp only [wp_bind, wp_chanGet hc]
-  split
-  · simp only [wp_bind, wp_chanSet]
-    have hw := h.setChan hc (c' := { c with ready := st }) ⟨rfl, rfl, rfl⟩
-    split
-    · split
-      · simp only [wp_emit]; exact hq _ _ hw (by simp)
-      · split
-        · simp only [wp_emit]; exact hq _ _ hw (by simp)
-        · simp only [wp_pure]; exact hq _ _ hw (by simp)
-    · simp only [wp_pure]; exact hq _ _ hw (by simp)
-  · simp only [wp_pure]; exact hself l h rfl
-
-/-- `_addBufferedAmount`: only the channel object changes. -/
-theorem wp_addBuffered {A} {i : Nat} {amount : Int} {Q : Unit → St → Prop} {e : Ep} {l : List Out} (h : WF U e)
-    (hi : i < e.chans.length)
-    (hq : ∀ cs l', WF U { e with chans := cs } → cs.length = e.chans.length → Q () ({ e with chans := cs }, l')) :
-    wp A (addBuffered i amount) Q (e, l) := by
-  obtain ⟨c, hc⟩ := getElem?_of_lt hi
-  unfold addBuffered
-  simp only [wp_bind, wp_chanGet hc, wp_chanSet]
-  have hw := h.setChan hc (c' := { c with buffered := c.buffered + amount }) ⟨rfl, rfl, rfl⟩
-  split
-  · simp only [wp_emit]; exact hq _ _ hw (by simp)
-  · simp only [wp_pure]; exact hq _ _ hw (by simp)
-
 /-- `_transmit()`: only the send side changes. -/
 theorem wp_transmit {A} {Q : Unit → St → Prop} {e : Ep} {l : List Out} (h : WF U e)
     (hq : ∀ tx l', WF U { e with tx := tx } → Q () ({ e with tx := tx }, l')) : wp A transmit Q (e, l) := by
@@ -121,11 +87,163 @@ theorem wp_sendData {A} {sid ppid : Nat} {data : Bytes} {expiry maxRtx : Option 
 theorem ChansOk.subQ {chans dcs q q' rcq} (h : ChansOk U chans dcs q rcq) (hsub : ∀ x ∈ q', x ∈ q) :
     ChansOk U chans dcs q' rcq :=
   ⟨h.dcIdx, h.dcKeys, fun x hx => h.qIdx x (hsub x hx), fun x hx => h.qPR x (hsub x hx),
-   fun x hx => h.qPpid x (hsub x hx), h.sid, h.rcq⟩
+   fun x hx => h.qPpid x (hsub x hx), h.sid, h.rcq, h.dcLink, h.openId⟩
 
 theorem WF.subQ {e : Ep} (h : WF U e) {q : List (Nat × Nat × Bytes)} (hsub : ∀ x ∈ q, x ∈ e.dcQueue) :
     WF U { e with dcQueue := q } :=
   ⟨h.net, h.ch.subQ hsub, h.tx, h.rx, h.rcReq, h.rcResp, h.sack, h.ids, h.cap, h.tm1, h.tm2, h.tasks, h.rcr⟩
+
+theorem ChansOk.pushQ {chans dcs q rcq} (h : ChansOk U chans dcs q rcq) {i ppid : Nat} {data : Bytes}
+    (hi : i < chans.length) (hp : ppid < 4294967296)
+    (hpr : ∀ c, chans[i]? = some c → ppid = WEBRTC_DCEP ∨ c.Reliable ∨ ∃ s, c.id = some s ∧ s ∈ U) :
+    ChansOk U chans dcs (q ++ [(i, ppid, data)]) rcq := by
+  refine ⟨h.dcIdx, h.dcKeys, ?_, ?_, ?_, h.sid, h.rcq, h.dcLink, h.openId⟩
+  · intro x hx
+    rcases List.mem_append.mp hx with hx | hx
+    · exact h.qIdx x hx
+    · simp at hx; subst hx; exact hi
+  · intro x hx c hc
+    rcases List.mem_append.mp hx with hx | hx
+    · exact h.qPR x hx c hc
+    · simp at hx; subst hx; exact hpr c hc
+  · intro x hx
+    rcases List.mem_append.mp hx with hx | hx
+    · exact h.qPpid x hx
+    · simp at hx; subst hx; exact hp
+
+theorem WF.pushQ {e : Ep} (h : WF U e) {i ppid : Nat} {data : Bytes}
+    (hi : i < e.chans.length) (hp : ppid < 4294967296)
+    (hpr : ∀ c, e.chans[i]? = some c → ppid = WEBRTC_DCEP ∨ c.Reliable ∨ ∃ s, c.id = some s ∧ s ∈ U) :
+    WF U { e with dcQueue := e.dcQueue ++ [(i, ppid, data)] } :=
+  ⟨h.net, h.ch.pushQ hi hp hpr, h.tx, h.rx, h.rcReq, h.rcResp, h.sack, h.ids, h.cap, h.tm1, h.tm2,
+   h.tasks, h.rcr⟩
+
+/-- `WF` does not read the armed handlers. -/
+theorem WF.setReactions {e : Ep} (h : WF U e) (rs : List (Nat × Nat × Bool × Bytes)) :
+    WF U { e with reactions := rs } :=
+  ⟨h.net, h.ch, h.tx, h.rx, h.rcReq, h.rcResp, h.sack, h.ids, h.cap, h.tm1, h.tm2, h.tasks, h.rcr⟩
+
+/-! ## application handlers that re-enter the API -/
+
+theorem userData_ppid (isStr : Bool) (data : Bytes) :
+    (userData isStr data).1 < 4294967296 ∧ (userData isStr data).1 ≠ WEBRTC_DCEP := by
+  unfold userData
+  rcases Bool.eq_false_or_eq_true data.isEmpty with h1 | h1 <;>
+    rcases Bool.eq_false_or_eq_true isStr with h2 | h2 <;> simp [h1, h2] <;> decide
+
+/-- `channel.send(data)` after its state check, on an OPEN channel: one unit of the budget pays for the stream of a
+partially reliable channel joining `U`. -/
+theorem wp_dcSend {A} {i : Nat} {isStr : Bool} {data : Bytes} {Q : Unit → St → Prop} {e : Ep} {l : List Out}
+    (h : WF U e) (hb : U.length + e.reactions.length + (B + 1) ≤ 16381) {c : Chan} (hc : e.chans[i]? = some c)
+    (hr : c.ready = 1) (hq : ∀ e' l', WFx B e' → RFrame e e' → Q () (e', l')) :
+    wp A (dcSend i isStr data) Q (e, l) := by
+  have hi : i < e.chans.length := by
+    rcases Nat.lt_or_ge i e.chans.length with h' | h'
+    · exact h'
+    · rw [List.getElem?_eq_none h'] at hc; cases hc
+  obtain ⟨hpp, hnd⟩ := userData_ppid isStr data
+  -- the set of partially reliable streams afterwards
+  obtain ⟨U', hsub, hlen, hmem⟩ : ∃ U' : List Nat, (∀ x ∈ U, x ∈ U') ∧ U'.length ≤ U.length + 1 ∧
+      (c.Reliable ∨ ∃ s, c.id = some s ∧ s ∈ U') := by
+    rcases h.ch.openId c (List.mem_of_getElem? hc) hr with hrel | hid
+    · exact ⟨U, fun x hx => hx, by omega, Or.inl hrel⟩
+    · obtain ⟨s, hs⟩ := Option.isSome_iff_exists.mp hid
+      exact ⟨s :: U, fun x hx => List.mem_cons_of_mem _ hx, by simp, Or.inr ⟨s, hs, List.mem_cons_self⟩⟩
+  have hw0 : WF U' e := h.monoU hsub (by omega)
+  unfold dcSend addBuffered0 addBufferedCore
+  simp only [wp_bind, wp_chanGet hc, wp_chanSet]
+  have hw := hw0.setChan hc (c' := { c with buffered := c.buffered + (userData isStr data).2.length })
+    ⟨rfl, rfl, rfl⟩ (fun h' => Or.inl h')
+  have hw2 := (hw.pushQ (i := i) (ppid := (userData isStr data).1) (data := (userData isStr data).2)
+    (by simpa using hi) hpp (by
+      intro c' hc'
+      simp only [List.getElem?_set, hi, if_true] at hc'
+      cases hc'
+      rcases hmem with hrel | ⟨s, hs1, hs2⟩
+      · exact Or.inr (Or.inl hrel)
+      · exact Or.inr (Or.inr ⟨s, hs1, hs2⟩))).pushTask (t := .flush) trivial
+  split
+  · simp only [wp_bind, wp_emit, wp_pure, wp_modE, queueTask]
+    exact hq _ _ ⟨U', by simp only; omega, hw2⟩ ⟨_, _, _, _, rfl, by simp⟩
+  · simp only [wp_pure, wp_modE, wp_bind, wp_emit, queueTask]
+    exact hq _ _ ⟨U', by simp only; omega, hw2⟩ ⟨_, _, _, _, rfl, by simp⟩
+
+/-- An application handler runs: at most one armed reaction is consumed; its `send()` either fails inside the handler
+(`InvalidStateError`) or queues one user message on an open channel. -/
+theorem wp_react {A} {k i : Nat} {Q : Unit → St → Prop} {e : Ep} {l : List Out} (h : WF U e)
+    (hb : U.length + e.reactions.length + B ≤ 16381) (hi : i < e.chans.length)
+    (hq : ∀ e' l', WFx B e' → RFrame e e' → Q () (e', l')) : wp A (react k i) Q (e, l) := by
+  unfold react
+  simp only [wp_bind, wp_getE]
+  split
+  · simp only [wp_pure]; exact hq e l ⟨U, hb, h⟩ (RFrame.refl _)
+  · rename_i r hfind
+    have hmem : r ∈ e.reactions := List.mem_of_find?_eq_some hfind
+    have hlen : (e.reactions.erase r).length + 1 = e.reactions.length := by
+      rw [List.length_erase_of_mem hmem]
+      have : 0 < e.reactions.length := List.length_pos_of_mem hmem
+      omega
+    obtain ⟨c, hc⟩ := getElem?_of_lt hi
+    have hw1 : WF U { e with reactions := e.reactions.erase r } := h.setReactions _
+    simp only [wp_bind, wp_setE]
+    rw [wp_chanGet (c := c) (by simpa using hc)]
+    split
+    · simp only [wp_emit]
+      exact hq _ _ ⟨U, by simp only; omega, hw1⟩ ⟨_, _, _, _, rfl, rfl⟩
+    · rename_i hr
+      have hr1 : c.ready = 1 := by
+        rcases Nat.decEq c.ready 1 with h' | h'
+        · exact absurd h' hr
+        · exact h'
+      refine wp_dcSend (B := B) hw1 (by simp only; omega) (by simpa using hc) hr1 ?_
+      intro e' l' hw' hf
+      exact hq e' l' hw' (RFrame.trans ⟨_, _, _, _, rfl, rfl⟩ hf)
+
+/-- `_setReadyState` (`hst`: a channel that opens is reliable or has its stream id). -/
+theorem wp_setReady {A} {i st : Nat} {Q : Unit → St → Prop} {e : Ep} {l : List Out} (h : WFx B e)
+    (hi : i < e.chans.length)
+    (hst : st = 1 → ∀ c, e.chans[i]? = some c → c.Reliable ∨ c.id.isSome)
+    (hq : ∀ e' l', WFx B e' → RFrame e e' → Q () (e', l')) :
+    wp A (setReady i st) Q (e, l) := by
+  obtain ⟨U, hb, h⟩ := h
+  obtain ⟨c, hc⟩ := getElem?_of_lt hi
+  unfold setReady
+  simp only [wp_bind, wp_chanGet hc]
+  split
+  · simp only [wp_bind, wp_chanSet]
+    have hw := h.setChan hc (c' := { c with ready := st }) ⟨rfl, rfl, rfl⟩
+      (fun h' => Or.inr (hst h' c hc))
+    have hfr : RFrame e { e with chans := e.chans.set i { c with ready := st } } := ⟨_, _, _, _, rfl, by simp⟩
+    split
+    · split
+      · simp only [wp_bind, wp_emit]
+        refine wp_react hw hb (by simpa using hi) ?_
+        intro e' l' hw' hf; exact hq e' l' hw' (hfr.trans hf)
+      · split
+        · simp only [wp_bind, wp_emit]
+          refine wp_react hw hb (by simpa using hi) ?_
+          intro e' l' hw' hf; exact hq e' l' hw' (hfr.trans hf)
+        · simp only [wp_pure]; exact hq _ _ ⟨U, hb, hw⟩ hfr
+    · simp only [wp_pure]; exact hq _ _ ⟨U, hb, hw⟩ hfr
+  · simp only [wp_pure]; exact hq e l ⟨U, hb, h⟩ (RFrame.refl _)
+
+/-- `_addBufferedAmount` with the application's `bufferedamountlow` handler. -/
+theorem wp_addBuffered {A} {i : Nat} {amount : Int} {Q : Unit → St → Prop} {e : Ep} {l : List Out} (h : WFx B e)
+    (hi : i < e.chans.length)
+    (hq : ∀ e' l', WFx B e' → RFrame e e' → Q () (e', l')) :
+    wp A (addBuffered i amount) Q (e, l) := by
+  obtain ⟨U, hb, h⟩ := h
+  obtain ⟨c, hc⟩ := getElem?_of_lt hi
+  unfold addBuffered addBufferedCore
+  simp only [wp_bind, wp_chanGet hc, wp_chanSet]
+  have hw := h.setChan hc (c' := { c with buffered := c.buffered + amount }) ⟨rfl, rfl, rfl⟩ (fun h' => Or.inl h')
+  have hfr : RFrame e { e with chans := e.chans.set i { c with buffered := c.buffered + amount } } :=
+    ⟨_, _, _, _, rfl, by simp⟩
+  split
+  · simp only [wp_bind, wp_emit, wp_pure, if_true]
+    refine wp_react hw hb (by simpa using hi) ?_
+    intro e' l' hw' hf; exact hq e' l' hw' (hfr.trans hf)
+  · simp only [wp_pure, Bool.false_eq_true, if_false]; exact hq _ _ ⟨U, hb, hw⟩ hfr
 
 /-! ## `_data_channel_flush`: picking a stream id -/
 
@@ -188,7 +306,8 @@ theorem WF.assign {e : Ep} (h : WF U e) {i s : Nat} {c : Chan} (hc : e.chans[i]?
     rcases Nat.lt_or_ge i e.chans.length with h' | h'
     · exact h'
     · rw [List.getElem?_eq_none h'] at hc; cases hc
-  refine ⟨h.net, ⟨?_, ?_, ?_, ?_, h.ch.qPpid, ?_, h.ch.rcq⟩, h.tx, h.rx, h.rcReq, h.rcResp, h.sack, h.ids, h.cap, h.tm1, h.tm2, h.tasks, h.rcr⟩
+  refine ⟨h.net, ⟨?_, ?_, ?_, ?_, h.ch.qPpid, ?_, h.ch.rcq, ?_, ?_⟩, h.tx, h.rx, h.rcReq, h.rcResp, h.sack, h.ids,
+    h.cap, h.tm1, h.tm2, h.tasks, h.rcr⟩
   · intro p hp
     rcases List.mem_append.mp hp with hp | hp
     · simpa using h.ch.dcIdx p hp
@@ -215,116 +334,20 @@ theorem WF.assign {e : Ep} (h : WF U e) {i s : Nat} {c : Chan} (hc : e.chans[i]?
     rcases List.mem_or_eq_of_mem_set hd with hd | rfl
     · exact h.ch.sid d hd s' hs'
     · simp at hs'; omega
-
-/-- `_data_channel_flush` loop: channel objects, stream table, queue and send side change; nothing else. -/
-theorem wp_flushLoop {A} (fuel : Nat) {Q : Unit → St → Prop} {e : Ep} {l : List Out} (h : WF U e)
-    (hq : ∀ e' l', WF U e' → DataFrame e e' → Q () (e', l')) : wp A (flushLoop fuel) Q (e, l) := by
-  induction fuel generalizing e l with
-  | zero => simpa [flushLoop] using hq e l h (DataFrame.refl _)
-  | succ fuel ih =>
-    unfold flushLoop
-    simp only [wp_bind, wp_getE]
-    split
-    · simpa using hq e l h (DataFrame.refl _)
-    · rename_i i ppid data rest hqeq
-      split
-      · simpa using hq e l h (DataFrame.refl _)
-      · simp only [wp_bind, wp_setE]
-        have hmem : (i, ppid, data) ∈ e.dcQueue := by rw [hqeq]; simp
-        have hi := h.ch.qIdx _ hmem
-        obtain ⟨c, hc⟩ := getElem?_of_lt hi
-        have hw1 : WF U { e with dcQueue := rest } := h.subQ (by intro x hx; rw [hqeq]; simp [hx])
-        rw [wp_chanGet (c := c) (by simpa using hc)]
-        have hpp := h.ch.qPpid _ hmem
-        have hpr0 := h.ch.qPR _ hmem c hc
-        -- the part after the stream id is known, for any state `e1` reached with a well-formed frame
-        have hsend : ∀ (e1 : Ep) (l1 : List Out) (sid : Nat), WF U e1 → DataFrame e e1 → sid < 65536 →
-            (ppid = WEBRTC_DCEP ∨ c.Reliable ∨ sid ∈ U) →
-            wp A (do
-              if ppid = WEBRTC_DCEP then
-                sendData sid ppid data none none true
-              else
-                let e ← getE
-                let expiry : Option Int := match c.maxPacketLifeTime with
-                  | some l => if l ≠ 0 then some (1000 * e.now + 1024 * (l : Int)) else none
-                  | none => none
-                sendData sid ppid data expiry (c.maxRetransmits.map fun m => (m : Int)) c.ordered
-                addBuffered i (-(data.length : Int))
-              flushLoop fuel) Q (e1, l1) := by
-          intro e1 l1 sid hwe hfe hsid hprs
-          have hi1 : i < e1.chans.length := by
-            obtain ⟨cs, dcs, q, tx, _, _, _, _, rfl, hl⟩ := hfe
-            exact Nat.lt_of_lt_of_le hi hl
-          split
-          · simp only [wp_bind]
-            refine wp_sendData hwe hsid hpp (Or.inl ⟨rfl, rfl⟩) ?_
-            intro tx l' hw2
-            refine ih hw2 ?_
-            intro e' l'' hw3 hf
-            exact hq e' l'' hw3 (DataFrame.trans (DataFrame.trans hfe ⟨_, _, _, tx, _, _, _, _, rfl, Nat.le_refl _⟩) hf)
-          · rename_i hne
-            simp only [wp_bind, wp_getE]
-            have hpr : ((match c.maxPacketLifeTime with
-                | some l => if l ≠ 0 then some (1000 * e1.now + 1024 * (l : Int)) else none
-                | none => none : Option Int) = none ∧ (c.maxRetransmits.map fun m => (m : Int)) = none) ∨ sid ∈ U := by
-              rcases hprs with h' | h' | h'
-              · exact absurd h' hne
-              · left; simp [h'.1, h'.2]
-              · exact Or.inr h'
-            refine wp_sendData hwe hsid hpp hpr ?_
-            intro tx l' hw2
-            refine wp_addBuffered hw2 (by simpa using hi1) ?_
-            intro cs l'' hw3 hlen
-            refine ih hw3 ?_
-            intro e' l3 hw4 hf
-            refine hq e' l3 hw4 (DataFrame.trans (DataFrame.trans hfe ⟨cs, _, _, tx, _, _, _, _, rfl, ?_⟩) hf)
-            simp at hlen; omega
-        cases hid : c.id with
-        | some sid =>
-          have hsidlt := h.ch.sid c (List.mem_of_getElem? hc) sid hid
-          simp only [wp_pure, wp_bind]
-          refine hsend _ _ sid hw1 ⟨_, _, rest, _, _, _, _, _, rfl, Nat.le_refl _⟩ hsidlt ?_
-          rcases hpr0 with h' | h' | ⟨s, hs, hu⟩
-          · exact Or.inl h'
-          · exact Or.inr (Or.inl h')
-          · rw [hid] at hs; cases hs; exact Or.inr (Or.inr hu)
-        | none =>
-          obtain ⟨s0, hs0, hs0le⟩ := h.ids
-          obtain ⟨k, hk, hpick, hin, hout⟩ := pick_spec e (e.dataChannels.length + 1) s0
-          have hkl : k ≤ e.dataChannels.length := keys_pigeon _ _ _ hin
-          have hnew : dictGet e.dataChannels (s0 + 2 * k) = none := by
-            have := hout (by omega)
-            cases hg : dictGet e.dataChannels (s0 + 2 * k) with
-            | none => rfl
-            | some v => rw [hg] at this; cases this
-          dsimp only
-          split
-          · rename_i s1 hs1
-            have hs01 : s0 = s1 := by rw [hs0] at hs1; exact Option.some.inj hs1
-            subst hs01
-            simp only [wp_pure, wp_bind, hpick]
-            split
-            · -- no stream id of the local parity below 65536 is free: the channel is closed
-              simp only [wp_bind]
-              refine wp_setReady hw1 (by simpa using hi) ?_
-              intro cs l1 hw2 hlen
-              simp only [wp_pure]
-              refine ih hw2 ?_
-              intro e' l2 hw3 hf
-              refine hq e' l2 hw3 (DataFrame.trans ⟨cs, _, rest, _, _, _, _, _, rfl, ?_⟩ hf)
-              simp at hlen; omega
-            · rename_i hle
-              have hslt : s0 + 2 * k < 65536 := by omega
-              have hw2 := hw1.assign (i := i) (s := s0 + 2 * k) (c := c) (by simpa using hc) hid
-                (by simpa using hnew) hslt
-              simp only [wp_pure, wp_bind, wp_modE, wp_chanSet]
-              refine hsend _ _ _ hw2 ⟨_, _, rest, _, _, _, _, _, rfl, by simp⟩ hslt ?_
-              rcases hpr0 with h' | h' | ⟨s, hs, _⟩
-              · exact Or.inl h'
-              · exact Or.inr (Or.inl h')
-              · rw [hid] at hs; cases hs
-          · rename_i hnone
-            rw [hs0] at hnone; cases hnone
+  · intro p hp
+    rcases List.mem_append.mp hp with hp | hp
+    · obtain ⟨d, hd, hdid⟩ := h.ch.dcLink p hp
+      have hne : ¬ i = p.2 := by
+        intro heq; rw [← heq, hc] at hd; cases hd; rw [hid] at hdid; cases hdid
+      refine ⟨d, ?_, hdid⟩
+      rw [List.getElem?_set]; simp [hne, hd]
+    · simp at hp; subst hp
+      refine ⟨{ c with id := some s }, ?_, rfl⟩
+      rw [List.getElem?_set]; simp [hlt]
+  · intro d hd hr
+    rcases List.mem_or_eq_of_mem_set hd with hd | rfl
+    · exact h.ch.openId d hd hr
+    · exact Or.inr rfl
 
 /-- `_transmit_reconfig()`: only the stream reset bookkeeping changes. -/
 theorem wp_transmitReconfig {A} {Q : Unit → St → Prop} {e : Ep} {l : List Out} (h : WF U e)
@@ -371,7 +394,7 @@ theorem wp_transmitReconfig {A} {Q : Unit → St → Prop} {e : Ep} {l : List Ou
                                  tsn_minus_one e.tx.localTsn, streams)
                                reconfigRequestSeq := tsn_plus_one e.reconfigRequestSeq } :=
         ⟨h.net, ⟨h.ch.dcIdx, h.ch.dcKeys, h.ch.qIdx, h.ch.qPR, h.ch.qPpid, h.ch.sid,
-          fun s hs => h.ch.rcq s (List.mem_filter.mp hs).1⟩, h.tx, h.rx, tsn_plus_one_range _, h.rcResp, h.sack,
+          fun s hs => h.ch.rcq s (List.mem_filter.mp hs).1, h.ch.dcLink, h.ch.openId⟩, h.tx, h.rx, tsn_plus_one_range _, h.rcResp, h.sack,
           h.ids, h.cap, h.tm1, h.tm2, h.tasks, (fun p hp => by cases hp; exact hrc)⟩
       refine wp_sendChunk hw1 (reconfigChunk_inRange (by decide) ?_) ?_
       · simp only [RcParam.bytes, List.length_append, length_u32be, length_u16sBytes]
@@ -384,20 +407,134 @@ theorem wp_transmitReconfig {A} {Q : Unit → St → Prop} {e : Ep} {l : List Ou
   · simp only [wp_pure]
     exact hq e l h (DataFrame.refl _)
 
-theorem wp_flush {A} {Q : Unit → St → Prop} {e : Ep} {l : List Out} (h : WF U e)
-    (hq : ∀ e' l', WF U e' → DataFrame e e' → Q () (e', l')) : wp A flush Q (e, l) := by
+
+/-- `_data_channel_flush` loop: channel objects, stream table, queue, send side, tasks and armed handlers change. -/
+theorem wp_flushLoop {A} (fuel : Nat) {Q : Unit → St → Prop} {e : Ep} {l : List Out} (h : WFx B e)
+    (hq : ∀ e' l', WFx B e' → DFrame e e' → Q () (e', l')) : wp A (flushLoop fuel) Q (e, l) := by
+  induction fuel generalizing e l with
+  | zero => simpa [flushLoop] using hq e l h (DFrame.refl _)
+  | succ fuel ih =>
+    unfold flushLoop
+    simp only [wp_bind, wp_getE]
+    split
+    · simpa using hq e l h (DFrame.refl _)
+    · rename_i i ppid data rest hqeq
+      split
+      · simpa using hq e l h (DFrame.refl _)
+      · obtain ⟨U, hb, h⟩ := h
+        simp only [wp_bind, wp_setE]
+        have hmem : (i, ppid, data) ∈ e.dcQueue := by rw [hqeq]; simp
+        have hi := h.ch.qIdx _ hmem
+        obtain ⟨c, hc⟩ := getElem?_of_lt hi
+        have hw1 : WF U { e with dcQueue := rest } := h.subQ (by intro x hx; rw [hqeq]; simp [hx])
+        rw [wp_chanGet (c := c) (by simpa using hc)]
+        have hpp := h.ch.qPpid _ hmem
+        have hpr0 := h.ch.qPR _ hmem c hc
+        -- the part after the stream id is known, for any state `e1` reached with a well-formed frame
+        have hsend : ∀ (e1 : Ep) (l1 : List Out) (sid : Nat), WF U e1 → U.length + e1.reactions.length + B ≤ 16381 →
+            DFrame e e1 → sid < 65536 → (ppid = WEBRTC_DCEP ∨ c.Reliable ∨ sid ∈ U) →
+            wp A (do
+              if ppid = WEBRTC_DCEP then
+                sendData sid ppid data none none true
+              else
+                let e ← getE
+                let expiry : Option Int := match c.maxPacketLifeTime with
+                  | some l => if l ≠ 0 then some (1000 * e.now + 1024 * (l : Int)) else none
+                  | none => none
+                sendData sid ppid data expiry (c.maxRetransmits.map fun m => (m : Int)) c.ordered
+                addBuffered i (-(data.length : Int))
+              flushLoop fuel) Q (e1, l1) := by
+          intro e1 l1 sid hwe hbe hfe hsid hprs
+          have hi1 : i < e1.chans.length := by
+            obtain ⟨_, _, _, _, _, _, _, _, _, _, rfl, hl⟩ := hfe
+            exact Nat.lt_of_lt_of_le hi hl
+          split
+          · simp only [wp_bind]
+            refine wp_sendData hwe hsid hpp (Or.inl ⟨rfl, rfl⟩) ?_
+            intro tx l' hw2
+            refine ih ⟨U, hbe, hw2⟩ ?_
+            intro e' l'' hw3 hf
+            exact hq e' l'' hw3 ((hfe.trans ⟨_, _, _, tx, _, _, _, _, _, _, rfl, Nat.le_refl _⟩).trans hf)
+          · rename_i hne
+            simp only [wp_bind, wp_getE]
+            have hpr : ((match c.maxPacketLifeTime with
+                | some l => if l ≠ 0 then some (1000 * e1.now + 1024 * (l : Int)) else none
+                | none => none : Option Int) = none ∧ (c.maxRetransmits.map fun m => (m : Int)) = none) ∨ sid ∈ U := by
+              rcases hprs with h' | h' | h'
+              · exact absurd h' hne
+              · left; simp [h'.1, h'.2]
+              · exact Or.inr h'
+            refine wp_sendData hwe hsid hpp hpr ?_
+            intro tx l' hw2
+            refine wp_addBuffered ⟨U, hbe, hw2⟩ (by simpa using hi1) ?_
+            intro e2 l'' hw3 hf2
+            refine ih hw3 ?_
+            intro e' l3 hw4 hf
+            exact hq e' l3 hw4 (((hfe.trans ⟨_, _, _, tx, _, _, _, _, _, _, rfl, Nat.le_refl _⟩).trans hf2.toD).trans hf)
+        cases hid : c.id with
+        | some sid =>
+          have hsidlt := h.ch.sid c (List.mem_of_getElem? hc) sid hid
+          simp only [wp_pure, wp_bind]
+          refine hsend _ _ sid hw1 hb ⟨_, _, rest, _, _, _, _, _, _, _, rfl, Nat.le_refl _⟩ hsidlt ?_
+          rcases hpr0 with h' | h' | ⟨s, hs, hu⟩
+          · exact Or.inl h'
+          · exact Or.inr (Or.inl h')
+          · rw [hid] at hs; cases hs; exact Or.inr (Or.inr hu)
+        | none =>
+          obtain ⟨s0, hs0, hs0le⟩ := h.ids
+          obtain ⟨k, hk, hpick, hin, hout⟩ := pick_spec e (e.dataChannels.length + 1) s0
+          have hkl : k ≤ e.dataChannels.length := keys_pigeon _ _ _ hin
+          have hnew : dictGet e.dataChannels (s0 + 2 * k) = none := by
+            have := hout (by omega)
+            cases hg : dictGet e.dataChannels (s0 + 2 * k) with
+            | none => rfl
+            | some v => rw [hg] at this; cases this
+          dsimp only
+          split
+          · rename_i s1 hs1
+            have hs01 : s0 = s1 := by rw [hs0] at hs1; exact Option.some.inj hs1
+            subst hs01
+            simp only [wp_pure, wp_bind, hpick]
+            split
+            · -- no stream id of the local parity below 65536 is free: the channel is closed
+              simp only [wp_bind]
+              refine wp_setReady ⟨U, hb, hw1⟩ (by simpa using hi) (by intro h3; cases h3) ?_
+              intro e2 l1 hw2 hf2
+              simp only [wp_pure]
+              refine ih hw2 ?_
+              intro e' l2 hw3 hf
+              exact hq e' l2 hw3 ((DFrame.trans ⟨_, _, rest, _, _, _, _, _, _, _, rfl, Nat.le_refl _⟩ hf2.toD).trans hf)
+            · rename_i hle
+              have hslt : s0 + 2 * k < 65536 := by omega
+              have hw2 := hw1.assign (i := i) (s := s0 + 2 * k) (c := c) (by simpa using hc) hid
+                (by simpa using hnew) hslt
+              simp only [wp_pure, wp_bind, wp_modE, wp_chanSet]
+              refine hsend _ _ _ hw2 hb ⟨_, _, rest, _, _, _, _, _, _, _, rfl, by simp⟩ hslt ?_
+              rcases hpr0 with h' | h' | ⟨s, hs, _⟩
+              · exact Or.inl h'
+              · exact Or.inr (Or.inl h')
+              · rw [hid] at hs; cases hs
+          · rename_i hnone
+            rw [hs0] at hnone; cases hnone
+
+theorem wp_flush {A} {Q : Unit → St → Prop} {e : Ep} {l : List Out} (h : WFx B e)
+    (hq : ∀ e' l', WFx B e' → DFrame e e' → Q () (e', l')) : wp A flush Q (e, l) := by
   unfold flush
   simp only [wp_bind, wp_getE]
   split
-  · simpa using hq e l h (DataFrame.refl _)
+  · simpa using hq e l h (DFrame.refl _)
   · simp only [wp_bind]
     refine wp_flushLoop _ h ?_
     intro e1 l1 hw1 hf1
     simp only [wp_getE]
     split
-    · refine wp_transmitReconfig hw1 ?_
+    · obtain ⟨U, hb, hw1⟩ := hw1
+      refine wp_transmitReconfig hw1 ?_
       intro e2 l2 hw2 hf2
-      exact hq e2 l2 hw2 (hf1.trans hf2)
+      have hf2' : DataFrame e1 e2 := hf2
+      have hre : e2.reactions = e1.reactions := by
+        obtain ⟨_, _, _, _, _, _, _, _, rfl, _⟩ := hf2; rfl
+      exact hq _ l2 ⟨U, by rw [hre]; exact hb, hw2⟩ (hf1.trans (DataFrame.toD hf2))
     · simp only [wp_pure]; exact hq e1 l1 hw1 hf1
 
 end Aiortc.Sctp.V2
